@@ -13,7 +13,7 @@ RESERVED = {
 NUMS = [('1', 1.0), ('+1', 1.0), ('-0.25', -0.25), ('1e-1', 0.1), ('0', 0.0), ('2.5', 2.5), ('-1', -1.0),
         ('0.5', 0.5), ('.5', 0.5), ('3', 3.0), ('0.75', 0.75), ('-2e0', -2.0), ('12', 12.0), ('0.2', 0.2)]
 FREE_KEYS = ['mass', 'm', 'k', 'lab', 'z9', 'Tg', 'note', 'b', '_type', '_q', 'order', 'node']
-FREE_VALS = ['abc', '72', '1.5', 'a_b', 'X', '0', 'R2', 'tail', '+1', 'e-3', 'left arm']
+FREE_VALS = ['abc', '72', '1.5', 'a_b', 'X', '0', 'R2', 'tail', '+1', 'e-3', 'left arm', 'p(R)', 'R|S', 'a{b', 'x)']
 DEFAULT_SPELL = {0.0: ['0', '0.0', '+0'], 1.0: ['1', '1.0', '+1']}
 
 
